@@ -552,6 +552,7 @@ def im2col_fast(a:np.ndarray, kernel_size, dilation=1, stride=1, padding=0, pad_
     """
     assert len(a.shape) == 4, "Input tensor must be of shape (N, C, H, W)"
     N, C, H, W = a.shape
+    kernel_size = np.broadcast_to(kernel_size, 2) # int or tuple, as in the other variants
     
     windows = extract_windows(a, kernel_size=kernel_size, step=stride, padding=padding, dilation=dilation, pad_value=pad_value)
     
